@@ -29,7 +29,18 @@ type inEvent struct {
 	data  []byte
 	err   error
 	delay time.Duration // a read error that takes this long to surface (the Read call is already in progress)
+	sticky bool         // the error stays: every later Read fails with it too (a read deadline that has passed)
 }
+
+// readTimeoutErr: what a net.Conn returns when its read deadline has passed (a net.Error that calls itself a timeout and temporary)
+type readTimeoutErr struct{}
+
+func (readTimeoutErr) Error() string         { return "read: i/o timeout" }
+func (readTimeoutErr) Timeout() bool         { return true }
+func (readTimeoutErr) Temporary() bool       { return true }
+func (readTimeoutErr) Is(target error) bool { return target == os.ErrDeadlineExceeded }
+
+var _ net.Error = readTimeoutErr{}
 
 // LifeConn is a scripted net.Conn: reads are fed event by event, writes succeed, fail, or block
 // until the write deadline (a peer that stopped reading).
@@ -42,6 +53,7 @@ type LifeConn struct {
 	writeMode string
 	deadline  time.Time
 	Writes    [][]byte
+	readErr   error
 }
 
 func NewLifeConn() *LifeConn {
@@ -56,12 +68,26 @@ func (c *LifeConn) Read(p []byte) (int, error) {
 		c.mu.Unlock()
 		return n, nil
 	}
+	if err := c.readErr; err != nil {
+		c.mu.Unlock()
+		select {
+		case <-c.closed:
+			return 0, errors.New("read: use of closed network connection")
+		case <-time.After(time.Millisecond):
+		}
+		return 0, err
+	}
 	c.mu.Unlock()
 	select {
 	case ev := <-c.in:
 		if ev.err != nil {
 			if ev.delay > 0 {
 				time.Sleep(ev.delay)
+			}
+			if ev.sticky {
+				c.mu.Lock()
+				c.readErr = ev.err
+				c.mu.Unlock()
 			}
 			return 0, ev.err
 		}
@@ -132,7 +158,7 @@ func (c *LifeConn) writeCount() int  { c.mu.Lock(); defer c.mu.Unlock(); return 
 type LScenario struct {
 	ID      string `json:"id"`
 	Role    string `json:"role"`    // acceptor | initiator
-	Cause   string `json:"cause"`   // peer_close peer_reset write_error peer_stops_reading local_close handler_stop timer_disconnect
+	Cause   string `json:"cause"`   // peer_close peer_reset read_timeout write_error peer_stops_reading local_close handler_stop timer_disconnect
 	Phase   string `json:"phase"`   // prelogon | handshake | logged | logout
 	InIn    int    `json:"inIn"`    // inbound messages in flight when the cause fires
 	InOut   int    `json:"inOut"`   // outbound sends in progress when the cause fires
@@ -353,6 +379,8 @@ func RunLifecycle(t *testing.T, sc *LScenario, emit func(*LifeObs)) {
 				conn.in <- inEvent{err: io.EOF, delay: time.Duration(sc.ErrDelayMs) * time.Millisecond}
 			case "peer_reset":
 				conn.in <- inEvent{err: errors.New("read tcp: connection reset by peer"), delay: time.Duration(sc.ErrDelayMs) * time.Millisecond}
+			case "read_timeout":
+				conn.in <- inEvent{err: readTimeoutErr{}, sticky: true}
 			case "local_close":
 				if ini != nil {
 					ini.Close()
@@ -376,6 +404,8 @@ func RunLifecycle(t *testing.T, sc *LScenario, emit func(*LifeObs)) {
 			conn.in <- inEvent{err: io.EOF, delay: time.Duration(sc.ErrDelayMs) * time.Millisecond}
 		case "peer_reset":
 			conn.in <- inEvent{err: errors.New("read tcp: connection reset by peer"), delay: time.Duration(sc.ErrDelayMs) * time.Millisecond}
+		case "read_timeout": // a read fails with a timeout (the application's read deadline on the connection has passed) and keeps failing
+			conn.in <- inEvent{err: readTimeoutErr{}, sticky: true}
 		case "write_error", "peer_stops_reading":
 			if sc.Cause == "write_error" {
 				conn.setMode("error")
